@@ -21,6 +21,12 @@
 //!   for the wallet (v, s·G), then `OwnedTxOut::recover_key(&KeyPair{v, s})` on every reported output;
 //! `c11_scalar <v> <i> <j>` -> scalar: `subaddress::get_secret_scalar(&v, Index{i, j})`;
 //! `c11_sub_keys <v> <s> <i> <j>` -> `<view> <spend> <view'> <spend'>`: `get_secret_keys` then the two single-key functions.
+//! Added after the review (G06, second round):
+//! `c09_scan_pre <v> <s> <majLo> <majHi> <minLo> <minHi> <prefix> <none|null>` -> as `c09_scan_tx`, through
+//!   `TransactionPrefix::check_outputs(.., None)` resp. `Some(&RctSigBase { rct_type: Null, .. })` — a scan WITHOUT RingCT data — and
+//!   `check_outputs_with` a pre-built checker (`APIS-DIFFER` if the two disagree), then `recover_key` on every reported output;
+//! `c11_view_sec` / `c11_spend_sec <v> <s> <i> <j>` -> scalar: `get_view_secret_key` / `get_spend_secret_key` called DIRECTLY;
+//! `c11_spend_pub <v> <S> <i> <j>` -> point: `get_spend_public_key` called directly.
 //! Non-trivial rule: c10_derive* — the point has a non-identity small-order component and the scalar is not 0 (a superset of the
 //! inputs on which `(8a mod l)·B` and `8·(a·B)` differ: they differ iff floor(8a/l)·l·T != 0; the exact count is the statistic
 //! `c10.formulas-differ`); c10_onetime* — position >= 128 or a point with torsion; c09 — index != (0,0) or
@@ -33,7 +39,8 @@ use curve25519_dalek::traits::Identity;
 use monero::blockdata::transaction::{RawExtraField, TxOutTarget};
 use monero::consensus::encode::{deserialize, serialize, VarInt};
 use monero::cryptonote::onetime_key::{KeyGenerator, KeyRecoverer, SubKeyChecker};
-use monero::{Transaction, TransactionPrefix, TxIn, TxOut};
+use monero::{Amount, Transaction, TransactionPrefix, TxIn, TxOut};
+use monero::util::ringct::{RctSigBase, RctType};
 use monero::cryptonote::subaddress::{self, Index};
 use monero::network::Network;
 use monero::util::key::{KeyPair, PrivateKey, PublicKey, ViewPair};
@@ -142,16 +149,33 @@ pub fn exec(t: &[&str]) -> Option<String> {
             (Some(v), Some(s), Some(maj), Some(min), Some(tx)) => {
                 let kp = KeyPair { view: v, spend: s };
                 let vp = ViewPair { view: v, spend: PublicKey::from_private_key(&s) };
-                match tx.check_outputs(&vp, maj.major..maj.minor, min.major..min.minor) {
-                    Err(err) => format!("err {}", match err { monero::blockdata::transaction::Error::NoTxPublicKey => "NoTxPublicKey", monero::blockdata::transaction::Error::MissingEcdhInfo => "MissingEcdhInfo",
-                        monero::blockdata::transaction::Error::MissingCommitment => "MissingCommitment", monero::blockdata::transaction::Error::InvalidCommitment => "InvalidCommitment", _ => "Other" }),
-                    Ok(ws) => {
-                        let mut out = format!("ok {}", ws.len());
-                        for w in &ws { out += &format!(" {}:{}/{}:{}", w.index(), w.sub_index().major, w.sub_index().minor, hex(&w.recover_key(&kp).to_bytes())); }
-                        out
-                    }
-                }
+                show_scan_recover(tx.check_outputs(&vp, maj.major..maj.minor, min.major..min.minor), &kp)
             }
+            _ => e(),
+        },
+        ["c09_scan_pre", v, s, a, b, c, d, h, base] => match (sk(v), sk(s), idx(a, b), idx(c, d), hex::decode(h).ok().and_then(|w| deserialize::<TransactionPrefix>(&w).ok()),
+                match *base { "none" => Some(None), "null" => Some(Some(null_base())), _ => None }) {
+            (Some(v), Some(s), Some(maj), Some(min), Some(prefix), Some(base)) => {
+                let kp = KeyPair { view: v, spend: s };
+                let vp = ViewPair { view: v, spend: PublicKey::from_private_key(&s) };
+                let r1 = prefix.check_outputs(&vp, maj.major..maj.minor, min.major..min.minor, base.as_ref());
+                let ck = SubKeyChecker::new(&vp, maj.major..maj.minor, min.major..min.minor);
+                let r2 = prefix.check_outputs_with(&ck, base.as_ref());
+                let (t1, t2) = (show_scan_recover(r1, &kp), show_scan_recover(r2, &kp));
+                if t1 == t2 { t1 } else { format!("APIS-DIFFER check_outputs={} check_outputs_with={}", t1, t2) }
+            }
+            _ => e(),
+        },
+        ["c11_view_sec", v, s, i, j] => match (sk(v), sk(s), idx(i, j)) {
+            (Some(v), Some(s), Some(ix)) => hex(&subaddress::get_view_secret_key(&KeyPair { view: v, spend: s }, ix).to_bytes()),
+            _ => e(),
+        },
+        ["c11_spend_sec", v, s, i, j] => match (sk(v), sk(s), idx(i, j)) {
+            (Some(v), Some(s), Some(ix)) => hex(&subaddress::get_spend_secret_key(&KeyPair { view: v, spend: s }, ix).to_bytes()),
+            _ => e(),
+        },
+        ["c11_spend_pub", v, s, i, j] => match (sk(v), pk(s), idx(i, j)) {
+            (Some(v), Some(s), Some(ix)) => hex(&subaddress::get_spend_public_key(&ViewPair { view: v, spend: s }, ix).to_bytes()),
             _ => e(),
         },
         ["c10_rvn", v, r, n] => match (sk(v), pk(r), pos(n)) {
@@ -181,6 +205,20 @@ pub fn exec(t: &[&str]) -> Option<String> {
         },
         _ => return None,
     })
+}
+
+fn null_base() -> RctSigBase { RctSigBase { rct_type: RctType::Null, txn_fee: Amount::from_pico(0), pseudo_outs: vec![], ecdh_info: vec![], out_pk: vec![] } }
+/// `err <kind>` | `ok <k> <index>:<i>/<j>:<recover_key>…`
+fn show_scan_recover(r: Result<Vec<monero::OwnedTxOut>, monero::blockdata::transaction::Error>, kp: &KeyPair) -> String {
+    use monero::blockdata::transaction::Error as E;
+    match r {
+        Err(err) => format!("err {}", match err { E::NoTxPublicKey => "NoTxPublicKey", E::MissingEcdhInfo => "MissingEcdhInfo", E::MissingCommitment => "MissingCommitment", E::InvalidCommitment => "InvalidCommitment", _ => "Other" }),
+        Ok(ws) => {
+            let mut out = format!("ok {}", ws.len());
+            for w in &ws { out += &format!(" {}:{}/{}:{}", w.index(), w.sub_index().major, w.sub_index().minor, hex(&w.recover_key(kp).to_bytes())); }
+            out
+        }
+    }
 }
 
 // ---------- independent re-implementation on dalek / tiny-keccak primitives (no monero-rs code path) ----------
@@ -394,6 +432,7 @@ pub fn run_c10(o: &mut Out, tier: &str, seed: u64) {
         o.direct(got == want, "c10: check(n, key) is true only for the generator's own one_time_key(n)", format!("v={} S={} R={} n={} wrong={}", sh(&v), ph(&st), ph(&rt), n, what), got, want);
     }
     c10_families(o, &mut rng, tier == "thorough");
+    { let mut rng2 = Rng::new(seed ^ 0xc10_2); c10_requested(o, &mut rng2, tier == "thorough"); }
     malformed(o, &mut rng);
     // wire forms that are not exactly one 32-byte key: short, long (trailing byte), also for a key with torsion
     let a = sh(&rand_scalar(&mut rng));
@@ -497,6 +536,94 @@ fn c10_families(o: &mut Out, rng: &mut Rng, thorough: bool) {
     }
 }
 
+/// Families requested after the review (second round, G06); own generator stream.
+fn c10_requested(o: &mut Out, rng: &mut Rng, thorough: bool) {
+    let id = ph(&EdwardsPoint::identity());
+    // (1) the SENDER constructor `from_random` with a destination spend key that carries a small-order component (every non-trivial
+    // T, primary address and subaddress of such a wallet), and then the RECEIVER: `from_key(..).check` and `SubKeyChecker::check` must
+    // recognise the one-time key the sender built — bit for bit the key Hs(8rV ‖ n)G + S with the torsion still on it
+    for round in 0..(if thorough { 6 } else { 1 }) {
+        for (ti, t) in EIGHT_TORSION.iter().enumerate().skip(1) {
+            for sub in [false, true] {
+                let (v, r) = (rand_scalar(rng), rand_scalar(rng));
+                let s_pub = rand_scalar(rng) * G + t;
+                let (i, j) = if sub { (rng.below(2) as u32, 1 + rng.below(2) as u32) } else { (0, 0) };
+                let d = dest_at(&v, &s_pub, i, j);          // subaddress: S' = S + mG keeps the component T, V' = v*S'
+                let n = if round == 0 { POSITIONS[(ti + sub as usize) % POSITIONS.len()] } else { *rng.pick(&POSITIONS) };
+                let txk = if d.2 { r * d.1 } else { r * G };
+                let want = derive_public_key(&derivation(&r, &d.0), n, &d.1);
+                o.stat(&format!("c10.sender-spend-torsion.T{}", ti));
+                let input = format!("r={} v={} S={} (T{}) index={}/{} n={}", sh(&r), sh(&v), ph(&s_pub), ti, i, j, n);
+                let key = o.op(format!("c10_onetime {} {} {} {}", sh(&r), ph(&d.0), ph(&d.1), n), true);
+                o.direct(key == ph(&want), "c10: from_random(V, S+T, r).one_time_key(n) == Hs(8rV ‖ n)G + (S+T) [dalek]: the spend key is used as given", input.clone(), key.clone(), ph(&want));
+                let got = o.op(format!("c10_onetime_recv {} {} {} {}", sh(&v), ph(&d.1), ph(&txk), n), true);
+                o.direct(got == key, "c10: the receiver's from_key((v, S+T), R).one_time_key(n) is the key the sender built for the spend key S+T", input.clone(), got, key.clone());
+                let got = o.op(format!("c10_check {} {} {} {} {}", sh(&v), ph(&d.1), ph(&txk), n, key), true);
+                o.direct(got == "true", "c10: from_key((v, S+T), R).check(n, key built by from_random) is true", input.clone(), got, "true".into());
+                let got = o.op(format!("c10_subcheck {} {} 0 2 0 3 {} {} {}", sh(&v), ph(&s_pub), ph(&txk), n, key), true);
+                o.direct(got == format!("{}/{}", i, j), "c10: SubKeyChecker::check of the wallet (v, S+T) recognises the key built by from_random, with its index", input, got, format!("{}/{}", i, j));
+            }
+        }
+    }
+    // (2) the eight small-order points THEMSELVES as public keys through every entry point — among them the three canonical encodings
+    // with the sign bit set, `00…0080`, `26e8…fc85`, `c717…03fa` (EIGHT_TORSION[6], [5], [7]): every one is an accepted key (no `err`),
+    // every derivation from it is the identity, and as a spend key it stays in the one-time key
+    let three = ["0000000000000000000000000000000000000000000000000000000000000080",
+                 "26e8958fc2b227b045c3f489f2ef98f0d5dfac05d3c63339b13802886d53fc85",
+                 "c7176a703d4dd84fba3c0b760d10670f2a2053fa2c39ccc64ec7fd7792ac03fa"];
+    for h in three { o.direct(EIGHT_TORSION.iter().any(|t| ph(t) == h), "c10: the literal small-order encoding is one of dalek's EIGHT_TORSION", h.into(), "absent".into(), "present".into()); }
+    for (ti, t) in EIGHT_TORSION.iter().enumerate() {
+        let th = ph(t);
+        let signed = three.contains(&th.as_str());
+        if !thorough && !signed && ti % 2 == 1 { continue; }
+        o.stat(if signed { "c10.small-order-key.sign-bit-set" } else { "c10.small-order-key.other" });
+        let (a, v, s, r) = (rand_scalar(rng), rand_scalar(rng), rand_scalar(rng), rand_scalar(rng));
+        let (s_pub, rr, vv) = (s * G, r * G, v * G);
+        let n = *rng.pick(&POSITIONS);
+        let inp = |what: &str| format!("T{}={} as {}", ti, th, what);
+        let mut expect = |o: &mut Out, line: String, want: String, what: &str| {
+            let got = o.op(line, true);
+            o.direct(got == want, &format!("c10: a small-order point as {} [dalek]", what), inp(what), got, want);
+        };
+        // the point as the key the derivation is taken from: 8*(a*T) is the identity
+        expect(o, format!("c10_derive {} {}", sh(&a), th), id.clone(), "transaction key of from_key: rv is the identity");
+        expect(o, format!("c10_derive_wire {} {}", sh(&a), th), id.clone(), "transaction key in consensus form: rv is the identity");
+        expect(o, format!("c10_derive_sender {} {}", sh(&a), th), id.clone(), "view key of from_random: rv is the identity");
+        expect(o, format!("c10_derive_raw {} {}", sh(&a), th), id.clone(), "PublicKey built through the public field: rv is the identity");
+        let d0 = EdwardsPoint::identity();
+        let mut m = d0.compress().to_bytes().to_vec(); m.extend(varint(n));
+        expect(o, format!("c10_rvn {} {} {}", sh(&v), th, n), sh(&hs(&m)), "transaction key: get_rvn_scalar == Hs(enc(identity) ‖ n)");
+        expect(o, format!("c10_onetime {} {} {} {}", sh(&r), th, ph(&s_pub), n), ph(&derive_public_key(&d0, n, &s_pub)), "destination view key: Hs(enc(identity) ‖ n)G + S");
+        expect(o, format!("c10_onetime_recv {} {} {} {}", sh(&v), ph(&s_pub), th, n), ph(&derive_public_key(&d0, n, &s_pub)), "transaction key of the receiver: Hs(enc(identity) ‖ n)G + S");
+        // the point as SPEND key: it stays in the one-time key
+        let dk = derivation(&r, &vv);
+        let key_t = derive_public_key(&dk, n, t);
+        expect(o, format!("c10_onetime {} {} {} {}", sh(&r), ph(&vv), th, n), ph(&key_t), "destination spend key: Hs(8rV ‖ n)G + T");
+        expect(o, format!("c10_onetime_recv {} {} {} {}", sh(&v), th, ph(&rr), n), ph(&key_t), "spend key of the receiver: Hs(8vR ‖ n)G + T");
+        expect(o, format!("c10_check {} {} {} {} {}", sh(&v), th, ph(&rr), n, ph(&key_t)), "true".into(), "spend key of check: the key Hs(8vR ‖ n)G + T is accepted");
+        expect(o, format!("c10_subcheck {} {} 0 1 0 2 {} {} {}", sh(&v), th, ph(&rr), n, ph(&key_t)), "0/0".into(), "spend key of a SubKeyChecker: index 0/0 recognised");
+        let d1 = dest_at(&v, t, 0, 1);
+        let key_s = derive_public_key(&derivation(&v, &(r * d1.1)), n, &d1.1);
+        expect(o, format!("c10_subcheck {} {} 0 1 0 2 {} {} {}", sh(&v), th, ph(&(r * d1.1)), n, ph(&key_s)), "0/1".into(), "spend key of a SubKeyChecker: subaddress 0/1 of that wallet recognised");
+        // the point as the KEY that is checked, and as transaction key of check / SubKeyChecker::check
+        let own = derive_public_key(&derivation(&v, &rr), n, &s_pub);
+        expect(o, format!("c10_check {} {} {} {} {}", sh(&v), ph(&s_pub), ph(&rr), n, th), (own.compress() == t.compress()).to_string(), "the key handed to check: refused");
+        expect(o, format!("c10_check {} {} {} {} {}", sh(&v), ph(&s_pub), th, n, ph(&derive_public_key(&d0, n, &s_pub))), "true".into(), "transaction key of check");
+        expect(o, format!("c10_subcheck {} {} 0 1 0 2 {} {} {}", sh(&v), ph(&s_pub), th, n, ph(&derive_public_key(&d0, n, &s_pub))), "0/0".into(), "transaction key of SubKeyChecker::check");
+        expect(o, format!("c10_subcheck {} {} 0 1 0 2 {} {} {}", sh(&v), ph(&s_pub), ph(&rr), n, th), "none".into(), "the key handed to SubKeyChecker::check: not ours");
+        // recovery and subaddress functions take it too
+        let (i, j) = (rng.below(2) as u32, 1 + rng.below(2) as u32);
+        expect(o, format!("c09_recover {} {} {} {} {} {}", sh(&v), sh(&s), th, n, i, j), sh(&(hs(&m) + s + sub_scalar(&v, i, j))), "transaction key of KeyRecoverer: Hs(enc(identity) ‖ n) + s'");
+        let dt = dest_at(&v, t, i, j);
+        expect(o, format!("c11_sub_pub {} {} {} {}", sh(&v), th, i, j), format!("{} {}", ph(&dt.0), ph(&dt.1)), "wallet spend key of get_public_keys: (v*S', T + mG)");
+        expect(o, format!("c11_spend_pub {} {} {} {}", sh(&v), th, i, j), ph(&dt.1), "wallet spend key of get_spend_public_key: T + mG");
+        expect(o, format!("c11_sub_pub {} {} 0 0", sh(&v), th), format!("{} {}", ph(&vv), th), "wallet spend key at index 0/0: unchanged");
+        expect(o, format!("c11_sub_addr {} {} {} {} Mainnet", sh(&v), th, i, j), hex(address_text(42, &dt.1, &dt.0).as_bytes()), "wallet spend key of get_subaddress");
+    }
+    // (3) the receiver recognises a tagged output built from an additional key also when the MAIN derivation's view tag collides
+    family_view_tag_collision(o, rng, if thorough { 6 } else { 2 }, "c10");
+}
+
 pub fn run_c09(o: &mut Out, tier: &str, seed: u64) {
     let mut rng = Rng::new(seed ^ 0xc09);
     let wallets: u64 = if tier == "thorough" { 100 } else { 10 };
@@ -572,6 +699,198 @@ pub fn run_c09(o: &mut Out, tier: &str, seed: u64) {
         }
     }
     c09_transactions(o, &mut rng, if tier == "thorough" { 60 } else { 8 });
+    // second round (G06): own generator stream, so that everything above is unchanged for a given seed
+    let mut rng2 = Rng::new(seed ^ 0xc09_2);
+    c09_requested(o, &mut rng2, tier == "thorough");
+}
+
+/// parse `ok <k> <pos>:<i>/<j>:<x>…` into [(pos, (i, j), x)]; `None` for an `err …` / malformed result
+fn parse_scan_recover(got: &str) -> Option<Vec<(usize, (u32, u32), String)>> {
+    let parts: Vec<&str> = got.split(' ').collect();
+    if parts.len() < 2 || parts[0] != "ok" { return None; }
+    let mut v = vec![];
+    for e in &parts[2..] {
+        let f: Vec<&str> = e.split(':').collect();
+        if f.len() != 3 { return None; }
+        let (i, j) = f[1].split_once('/')?;
+        v.push((f[0].parse().ok()?, (i.parse().ok()?, j.parse().ok()?), f[2].to_string()));
+    }
+    if parts[1].parse::<usize>().ok()? != v.len() { return None; }
+    Some(v)
+}
+/// oracle for a `c09_scan_tx` / `c09_scan_pre` result: exactly the positions `want` (with their indices) are reported, and every
+/// recovered scalar times G is the output key that is on the wire at that position
+fn judge_scan_recover(o: &mut Out, line: &str, got: &str, keys: &[[u8; 32]], want: &[(usize, (u32, u32))], what: &str) { judge_scan_recover_as(o, "c09", line, got, keys, want, what) }
+fn judge_scan_recover_as(o: &mut Out, label: &str, line: &str, got: &str, keys: &[[u8; 32]], want: &[(usize, (u32, u32))], what: &str) {
+    let parsed = parse_scan_recover(got);
+    let rep: Option<Vec<(usize, (u32, u32))>> = parsed.as_ref().map(|v| v.iter().map(|(p, ij, _)| (*p, *ij)).collect());
+    o.direct(rep.as_deref() == Some(want), &format!("{}: {}: the scan reports exactly the outputs addressed to the scanned indices, with their indices", label, what),
+        trunc(line, 300), trunc(got, 300), format!("{:?}", want));
+    for (p, _, x) in parsed.unwrap_or_default() {
+        let xg = from_hex_scalar(&x).map(|x| (x * G).compress().to_bytes());
+        o.direct(xg.is_some() && xg.as_ref() == keys.get(p), &format!("{}: {}: recover_key(owned output)*G == the output key that is on the wire", label, what),
+            trunc(line, 300), xg.map(|b| hex(&b)).unwrap_or(x), keys.get(p).map(|k| hex(k)).unwrap_or("no such output".into()));
+    }
+}
+/// Monero's view tag: first byte of Keccak("view_tag" ‖ D ‖ varint(n))
+fn view_tag(d: &EdwardsPoint, n: u64) -> u8 { let mut m = b"view_tag".to_vec(); m.extend(d.compress().to_bytes()); m.extend(varint(n)); keccak256(&m)[0] }
+/// a prefix with explicit output targets (tag = None: `ToKey`), one `Gen` input
+fn prefix_targets(ver: u64, outs: &[([u8; 32], Option<u8>)], extra: Vec<u8>) -> TransactionPrefix {
+    let outputs = outs.iter().enumerate().map(|(i, (k, t))| TxOut { amount: VarInt(if ver == 1 { 1000 + i as u64 } else { 0 }),
+        target: match t { None => TxOutTarget::ToKey { key: *k }, Some(view_tag) => TxOutTarget::ToTaggedKey { key: *k, view_tag: *view_tag } } }).collect();
+    TransactionPrefix { version: VarInt(ver), unlock_time: VarInt(0), inputs: vec![TxIn::Gen { height: VarInt(1) }], outputs, extra: RawExtraField(extra) }
+}
+
+/// one `c09_scenario` line: operation, statistics, and the direct check x·G == the output's key for every reported output;
+/// returns the positions of the recovered outputs
+fn run_c09_scenario_line(o: &mut Out, line: String) -> Vec<usize> {
+    use monero::blockdata::transaction::TxOutTarget;
+    let toks: Vec<&str> = line.split(' ').collect();
+    let s = match crate::c07::scenario(&toks[1..]) { Some(s) => s, None => return vec![] };
+    let got = o.op(line.clone(), true);
+    o.stat(if got.contains(" err ") { "c09.scenario.err" } else if got.contains(" ok 0") { "c09.scenario.none-owned" } else { "c09.scenario.owned" });
+    let parts: Vec<&str> = got.split(' ').collect();
+    let mut positions = vec![];
+    if parts.len() >= 3 && parts[1] == "ok" {
+        for e in &parts[3..] {
+            let (pos, x) = match e.split_once(':') { Some(p) => p, None => continue };
+            let pos: usize = pos.parse().unwrap_or(usize::MAX);
+            let key = s.prefix.outputs.get(pos).map(|t| match &t.target { TxOutTarget::ToKey { key } => *key, TxOutTarget::ToTaggedKey { key, .. } => *key });
+            let xg = from_hex_scalar(x).map(|x| (x * G).compress().to_bytes());
+            o.direct(xg.is_some() && xg == key, "c09: recover_key(owned output)*G == that output's one-time public key (scanned transaction)",
+                trunc(&line, 400), xg.map(|b| hex(&b)).unwrap_or(x.to_string()), key.map(|k| hex(&k)).unwrap_or("no such output".into()));
+            o.stat("c09.scenario.recovered");
+            o.stat(if pos < 128 { "c09.scenario.recovered.pos<128" } else if pos < 16384 { "c09.scenario.recovered.pos<16384" } else if pos < 65536 { "c09.scenario.recovered.pos>=16384" } else { "c09.scenario.recovered.pos>=65536" });
+            positions.push(pos);
+        }
+    }
+    positions
+}
+
+/// Families requested after the review (second round, G06).
+fn c09_requested(o: &mut Out, rng: &mut Rng, thorough: bool) {
+    // (1) an owned output at a position >= 65536 in EVERY tier (a position narrowed to 16 bits on its way into `recover_key` was only
+    // visible in the thorough tier): one scenario of c07's sender, no additional keys and filler outputs whose key is not a valid
+    // point (both sides skip them at `as_one_time_key`, so 65 thousand outputs cost about a second per side), no RingCT data (so no
+    // corrupt opening can turn the scan into an error), the sure output addressed through the main key
+    for _ in 0..(if thorough { 2 } else { 1 }) {
+        let cross = 65540 + rng.range(0, 2000);
+        let rct = *rng.pick(&[(1u64, "n"), (2, "n"), (2, "0")]);
+        let line = crate::c07::gen_scenario(rng, cross, Some(rct), None, false).replacen("c07_scenario", "c09_scenario", 1);
+        o.stat("c09.scenario.beyond-65536");
+        let positions = run_c09_scenario_line(o, line.clone());
+        o.direct(positions.iter().any(|p| *p >= 65536), "c09: the scenario beyond position 65536 has an owned output there, recovered through OwnedTxOut::recover_key",
+            trunc(&line, 300), format!("{:?}", positions), "a position >= 65536".into());
+    }
+    // (2) scans WITHOUT RingCT data of outputs that are owned ONLY through their additional key (the main key is unrelated), for
+    // primary-address outputs (additional key r_n*G) and subaddress outputs (r_n*S') alike: a version-1 transaction, a version-2
+    // transaction of type Null (both through `Transaction::check_outputs`), and the bare prefix through
+    // `TransactionPrefix::check_outputs(.., None)` / `(.., Some(Null base))`; then `recover_key` must use the MATCHED key
+    for k in 0..(if thorough { 12 } else { 3 }) {
+        let (v, s) = (rand_scalar(rng), rand_scalar(rng));
+        let s_pub = s * G;
+        let nout = 2 + rng.below(3) as usize;
+        let base_pos = if k % 3 == 2 { 127usize } else { 0 };
+        let mut keys: Vec<[u8; 32]> = vec![[0x58; 32]; base_pos];
+        let mut adds: Vec<EdwardsPoint> = vec![G; base_pos];
+        let mut want: Vec<(usize, (u32, u32))> = vec![];
+        for p in 0..nout {
+            let pos = base_pos + p;
+            let (i, j) = match (p + k) % 3 { 0 => (0u32, 0u32), 1 => (0, 1 + rng.below(2) as u32), _ => (1, rng.below(3) as u32) };
+            let d = dest_at(&v, &s_pub, i, j);
+            let rp = rand_scalar(rng);
+            let txk = if d.2 { rp * d.1 } else { rp * G };
+            adds.push(txk);
+            keys.push(derive_public_key(&derivation(&v, &txk), pos as u64, &d.1).compress().to_bytes());
+            want.push((pos, (i, j)));
+        }
+        let extra = extra_of(&(rand_scalar(rng) * G), &adds);
+        let pre1 = serialize(&prefix_of(1, &keys, extra.clone()));
+        let pre2 = serialize(&prefix_of(2, &keys, extra));
+        let mut tx2 = pre2.clone(); tx2.extend(serialize(&null_base()));
+        let head = format!("{} {} 0 2 0 3", sh(&v), sh(&s));
+        for (what, line) in [
+            ("version-1 transaction, outputs owned only through additional keys", format!("c09_scan_tx {} {}", head, hex(&pre1))),
+            ("version-2 transaction of type Null, outputs owned only through additional keys", format!("c09_scan_tx {} {}", head, hex(&tx2))),
+            ("version-1 prefix scanned with no RingCT base, outputs owned only through additional keys", format!("c09_scan_pre {} {} none", head, hex(&pre1))),
+            ("version-2 prefix scanned with no RingCT base, outputs owned only through additional keys", format!("c09_scan_pre {} {} none", head, hex(&pre2))),
+            ("version-2 prefix scanned with a base of type Null, outputs owned only through additional keys", format!("c09_scan_pre {} {} null", head, hex(&pre2))),
+        ] {
+            o.stat("c09.no-ringct.additional-key-only");
+            let got = o.op(line.clone(), true);
+            judge_scan_recover(o, &line, &got, &keys, &want, what);
+        }
+    }
+    // (3) a checker that covers exactly ONE index, and that index is not the primary address (ranges 0..1 x 1..2, i.e. only (0,1)):
+    // payments to the PRIMARY address and to other subaddresses must not be reported, the payment to (0,1) must be, with its index —
+    // through the scan (+ recover_key) and through `SubKeyChecker::check`; and the mirror image 0..1 x 0..1 (only the primary address)
+    for k in 0..(if thorough { 10 } else { 3 }) {
+        let (v, s) = (rand_scalar(rng), rand_scalar(rng));
+        let s_pub = s * G;
+        let r_main = rand_scalar(rng);
+        let dests: [(u32, u32); 5] = [(0, 0), (0, 1), (0, 0), (0, 2), (1, 1)];
+        let mut keys: Vec<[u8; 32]> = vec![];
+        let mut adds: Vec<EdwardsPoint> = vec![];
+        let mut txks: Vec<EdwardsPoint> = vec![];
+        for (pos, (i, j)) in dests.iter().enumerate() {
+            let d = dest_at(&v, &s_pub, *i, *j);
+            // primary-address outputs: through the main key r*G (even positions) or through an additional key r_n*G (position 2)
+            let (txk, add) = if !d.2 && pos != 2 { (r_main * G, rand_scalar(rng) * G) } else { let rp = rand_scalar(rng); let t = if d.2 { rp * d.1 } else { rp * G }; (t, t) };
+            adds.push(add); txks.push(txk);
+            keys.push(derive_public_key(&derivation(&v, &txk), pos as u64, &d.1).compress().to_bytes());
+        }
+        let tx = if k % 2 == 0 { tx_v1(&keys, extra_of(&(r_main * G), &adds)) } else { let mut t = serialize(&prefix_of(2, &keys, extra_of(&(r_main * G), &adds))); t.extend(serialize(&null_base())); t };
+        for (ranges, only) in [("0 1 1 2", (0u32, 1u32)), ("0 1 0 1", (0, 0)), ("0 1 2 3", (0, 2)), ("1 2 1 2", (1, 1))] {
+            let want: Vec<(usize, (u32, u32))> = dests.iter().enumerate().filter(|(_, ij)| **ij == only).map(|(p, ij)| (p, *ij)).collect();
+            let line = format!("c09_scan_tx {} {} {} {}", sh(&v), sh(&s), ranges, hex(&tx));
+            o.stat("c09.single-index-checker");
+            let got = o.op(line.clone(), true);
+            judge_scan_recover(o, &line, &got, &keys, &want, &format!("a checker covering the single index {}/{}", only.0, only.1));
+            for (pos, ij) in dests.iter().enumerate() {
+                if ranges != "0 1 1 2" && pos > 1 { continue; }
+                let got = o.op(format!("c10_subcheck {} {} {} {} {} {}", sh(&v), ph(&s_pub), ranges, ph(&txks[pos]), pos, hex(&keys[pos])), true);
+                let want = if *ij == only { format!("{}/{}", ij.0, ij.1) } else { "none".to_string() };
+                o.direct(got == want, "c09: SubKeyChecker::check on a checker covering a single index recognises exactly the keys of that index",
+                    format!("v={} S={} ranges={} R={} n={} key={} (built for {}/{})", sh(&v), ph(&s_pub), ranges, ph(&txks[pos]), pos, hex(&keys[pos]), ij.0, ij.1), got, want);
+            }
+        }
+    }
+    // (4) view-tag collision between the main and the additional derivation
+    family_view_tag_collision(o, rng, if thorough { 8 } else { 2 }, "c09");
+}
+
+/// A TAGGED output addressed through its additional key whose view tag ALSO equals the tag the main key's derivation gives at that
+/// position (1 in 256 by chance — searched for here): the main key passes the tag test, fails the key test, and the scan must still
+/// fall through to the additional key ("one-time keys built from the derivation are recognised by the receiver": C09 and C10)
+fn family_view_tag_collision(o: &mut Out, rng: &mut Rng, count: usize, label: &str) {
+    for k in 0..count {
+        let (v, s) = (rand_scalar(rng), rand_scalar(rng));
+        let s_pub = s * G;
+        let r_main = rand_scalar(rng);
+        let (i, j) = if k % 2 == 0 { (0u32, 1u32) } else { (0, 0) };
+        let d = dest_at(&v, &s_pub, i, j);
+        let pos = 1u64 + (k as u64 % 3);
+        let d_main = derivation(&v, &(r_main * G));
+        let mut found = None;
+        for _ in 0..20000 {
+            let rp = rand_scalar(rng);
+            let txk = if d.2 { rp * d.1 } else { rp * G };
+            let dd = derivation(&v, &txk);
+            if view_tag(&dd, pos) == view_tag(&d_main, pos) { found = Some((txk, dd)); break; }
+        }
+        let (txk, dd) = match found { Some(f) => f, None => { o.stat(&format!("{}.view-tag-collision.not-found", label)); continue; } };
+        let mut outs: Vec<([u8; 32], Option<u8>)> = vec![]; let mut adds: Vec<EdwardsPoint> = vec![];
+        for p in 0..=pos {
+            if p == pos { outs.push((derive_public_key(&dd, pos, &d.1).compress().to_bytes(), Some(view_tag(&dd, pos)))); adds.push(txk); }
+            else { outs.push(((rand_scalar(rng) * G).compress().to_bytes(), Some(rng.byte()))); adds.push(rand_scalar(rng) * G); }
+        }
+        let keys: Vec<[u8; 32]> = outs.iter().map(|(k, _)| *k).collect();
+        let pre = serialize(&prefix_targets(if k % 2 == 0 { 1 } else { 2 }, &outs, extra_of(&(r_main * G), &adds)));
+        let line = format!("c09_scan_pre {} {} 0 2 0 3 {} none", sh(&v), sh(&s), hex(&pre));
+        o.stat(&format!("{}.view-tag-collision", label));
+        let got = o.op(line.clone(), true);
+        judge_scan_recover_as(o, label, &line, &got, &keys, &[(pos as usize, (i, j))], "tagged output owned through the additional key, the main key's view tag collides");
+    }
 }
 
 /// (G06, item 3 of the coordinator) whole transactions built here (version 1, clear amounts: main key + one additional key per
@@ -652,7 +971,6 @@ fn c09_transactions(o: &mut Out, rng: &mut Rng, count: usize) {
 /// destinations, tagged/untagged, torsioned keys), scanned by the library; every output it reports as owned is handed to
 /// `OwnedTxOut::recover_key` and the result times G must be that output's one-time public key.
 fn run_c09_scenarios(o: &mut Out, rng: &mut Rng, count: usize) {
-    use monero::blockdata::transaction::TxOutTarget;
     for k in 0..count {
         // (G06) positions of the owned outputs: below 128 (most), just beyond 128, beyond 300, beyond 16384 (once per run; thrice
         // + once beyond 70000 in the thorough tier) — `recover_key` must pass the FULL position on
@@ -665,23 +983,7 @@ fn run_c09_scenarios(o: &mut Out, rng: &mut Rng, count: usize) {
             line = shift_indices(&line, di, dj);
             o.stat("c09.scenario.shifted-indices");
         }
-        let toks: Vec<&str> = line.split(' ').collect();
-        let s = match crate::c07::scenario(&toks[1..]) { Some(s) => s, None => continue };
-        let got = o.op(line.clone(), true);
-        o.stat(if got.contains(" err ") { "c09.scenario.err" } else if got.contains(" ok 0") { "c09.scenario.none-owned" } else { "c09.scenario.owned" });
-        let parts: Vec<&str> = got.split(' ').collect();
-        if parts.len() >= 3 && parts[1] == "ok" {
-            for e in &parts[3..] {
-                let (pos, x) = match e.split_once(':') { Some(p) => p, None => continue };
-                let pos: usize = pos.parse().unwrap_or(usize::MAX);
-                let key = s.prefix.outputs.get(pos).map(|t| match &t.target { TxOutTarget::ToKey { key } => *key, TxOutTarget::ToTaggedKey { key, .. } => *key });
-                let xg = from_hex_scalar(x).map(|x| (x * G).compress().to_bytes());
-                o.direct(xg.is_some() && xg == key, "c09: recover_key(owned output)*G == that output's one-time public key (scanned transaction)",
-                    trunc(&line, 400), xg.map(|b| hex(&b)).unwrap_or(x.to_string()), key.map(|k| hex(&k)).unwrap_or("no such output".into()));
-                o.stat("c09.scenario.recovered");
-                o.stat(if pos < 128 { "c09.scenario.recovered.pos<128" } else if pos < 16384 { "c09.scenario.recovered.pos<16384" } else { "c09.scenario.recovered.pos>=16384" });
-            }
-        }
+        run_c09_scenario_line(o, line);
     }
 }
 
@@ -739,6 +1041,7 @@ pub fn run_c11(o: &mut Out, tier: &str, seed: u64) {
         }
     }
     c11_vectors(o);
+    { let mut rng2 = Rng::new(seed ^ 0xc11_2); c11_requested(o, &mut rng2, tier == "thorough"); }
     for w in 0..wallets {
         let (v, _) = strat_scalar(&mut rng, if w < 5 { w } else { 15 });
         let (s, _) = strat_scalar(&mut rng, if (5..10).contains(&w) { w - 5 } else { 15 });
@@ -838,6 +1141,78 @@ pub fn run_c11(o: &mut Out, tier: &str, seed: u64) {
         let pubs = o.op(format!("c11_sub_pub {} {} {} {}", sh(&v), ph(&(s0 * G)), fi, fj), true);
         let id = ph(&EdwardsPoint::identity());
         o.direct(pubs == format!("{} {}", id, id), "c11: s = -m gives the public keys (identity, identity)", format!("v={} s={} i={} j={}", sh(&v), sh(&s0), fi, fj), pubs, format!("{} {}", id, id));
+    }
+}
+
+/// Families requested after the review (second round, G06); own generator stream.
+fn c11_requested(o: &mut Out, rng: &mut Rng, thorough: bool) {
+    let two252 = { let mut b = [0u8; 32]; b[31] = 0x10; Scalar::from_bytes_mod_order(b) };   // 2^252 < l
+    // (1) boundary spend secrets — s = 0 (the all-zero key a view-only wallet may carry), 1, 2, l-1, l-2, 2^252 — and boundary view
+    // secrets at several indices; every secret-side function called DIRECTLY (`get_view_secret_key`, `get_spend_secret_key`,
+    // `get_secret_keys`) and compared with the formulas on dalek and with the PUBLIC side (G * secret == public key)
+    let spends: Vec<(Scalar, &str)> = vec![(Scalar::ZERO, "0"), (Scalar::ONE, "1"), (Scalar::from(2u8), "2"), (l_minus_1(), "l-1"), (l_minus_1() - Scalar::ONE, "l-2"), (two252, "2^252")];
+    let views: Vec<(Scalar, &str)> = if thorough { vec![(rand_scalar(rng), "random"), (Scalar::ONE, "1"), (l_minus_1(), "l-1"), (two252, "2^252"), (Scalar::ZERO, "0")] } else { vec![(rand_scalar(rng), "random"), (Scalar::ONE, "1"), (l_minus_1(), "l-1")] };
+    let indices: [(u32, u32); 6] = [(0, 1), (1, 0), (2, 18), (0xffff, 0x10000), (u32::MAX, u32::MAX), (0, 0)];
+    for (s, sname) in &spends {
+        for (v, vname) in &views {
+            for (q, (i, j)) in indices.iter().enumerate() {
+                if !thorough && *sname != "0" && (q + sname.len() + vname.len()) % 2 == 1 { continue; }
+                o.stat(&format!("c11.boundary-spend-secret.s={}", sname));
+                let nt = *i != 0 || *j != 0;
+                let (want_s, want_v) = if nt { let sp = s + sub_scalar(v, *i, *j); (sp, v * sp) } else { (*s, *v) };
+                let input = format!("v={} ({}) s={} ({}) i={} j={}", sh(v), vname, sh(s), sname, i, j);
+                let xs = o.op(format!("c11_spend_sec {} {} {} {}", sh(v), sh(s), i, j), true);
+                o.direct(xs == sh(&want_s), "c11: get_spend_secret_key == s + m (s at 0/0) [dalek], boundary spend secret", input.clone(), xs.clone(), sh(&want_s));
+                let xv = o.op(format!("c11_view_sec {} {} {} {}", sh(v), sh(s), i, j), true);
+                o.direct(xv == sh(&want_v), "c11: get_view_secret_key called directly == v*(s + m) (v at 0/0) [dalek], boundary spend secret", input.clone(), xv.clone(), sh(&want_v));
+                let k4 = o.op(format!("c11_sub_keys {} {} {} {}", sh(v), sh(s), i, j), true);
+                o.direct(k4 == format!("{} {} {} {}", xv, xs, xv, xs), "c11: get_secret_keys == (get_view_secret_key, get_spend_secret_key) called directly", input.clone(), k4, format!("{} {} {} {}", xv, xs, xv, xs));
+                let pubs = o.op(format!("c11_sub_pub {} {} {} {}", sh(v), ph(&(s * G)), i, j), true);
+                let g_secs = format!("{} {}", from_hex_scalar(&xv).map(|x| ph(&(x * G))).unwrap_or_default(), from_hex_scalar(&xs).map(|x| ph(&(x * G))).unwrap_or_default());
+                o.direct(pubs == g_secs, "c11: get_public_keys(v, s*G) == G * (get_view_secret_key, get_spend_secret_key), boundary spend secret", input, pubs, g_secs);
+            }
+        }
+    }
+    // (2) `get_view_secret_key` called directly on ordinary wallets, against the public side
+    for _ in 0..(if thorough { 60 } else { 12 }) {
+        let (v, s) = (rand_scalar(rng), rand_scalar(rng));
+        let (i, j) = (rng.u64_boundary() as u32, if rng.chance(1, 4) { 0 } else { rng.u64_boundary() as u32 });
+        o.stat("c11.view-secret-direct");
+        let nt = i != 0 || j != 0;
+        let xv = o.op(format!("c11_view_sec {} {} {} {}", sh(&v), sh(&s), i, j), nt);
+        let d = dest_at(&v, &(s * G), i, j);
+        let got = from_hex_scalar(&xv).map(|x| ph(&(x * G))).unwrap_or(xv.clone());
+        o.direct(got == ph(&d.0), "c11: G * get_view_secret_key (called directly) == the public view key v*S' (v*G at 0/0) [dalek]", format!("v={} s={} i={} j={}", sh(&v), sh(&s), i, j), got, ph(&d.0));
+        let want = if nt { v * (s + sub_scalar(&v, i, j)) } else { v };
+        o.direct(xv == sh(&want), "c11: get_view_secret_key (called directly) == v*(s + m) [dalek]", format!("v={} s={} i={} j={}", sh(&v), sh(&s), i, j), xv, sh(&want));
+    }
+    // (3) the PUBLIC side at the ends of the index space: minor = u32::MAX, major = u32::MAX, both, and their neighbours —
+    // `get_spend_public_key` and `get_public_keys` called directly, `get_subaddress`, and a SubKeyChecker whose ranges end at u32::MAX
+    let m = u32::MAX;
+    for w in 0..(if thorough { 8 } else { 2 }) {
+        let (v, s) = (rand_scalar(rng), rand_scalar(rng));
+        let s_pub = s * G;
+        for (i, j) in [(0u32, m), (m, 0u32), (m, m), (1, m), (m, 1), (m - 1, m), (m, m - 1), (0, m - 1), (m - 1, 0)] {
+            o.stat("c11.index-u32-max.public");
+            let d = dest_at(&v, &s_pub, i, j);
+            let input = format!("v={} S={} i={} j={}", sh(&v), ph(&s_pub), i, j);
+            let sp = o.op(format!("c11_spend_pub {} {} {} {}", sh(&v), ph(&s_pub), i, j), true);
+            o.direct(sp == ph(&d.1), "c11: get_spend_public_key at an index with a component u32::MAX (or next to it) == S + m*G [dalek]", input.clone(), sp, ph(&d.1));
+            let pubs = o.op(format!("c11_sub_pub {} {} {} {}", sh(&v), ph(&s_pub), i, j), true);
+            o.direct(pubs == format!("{} {}", ph(&d.0), ph(&d.1)), "c11: get_public_keys at an index with a component u32::MAX (or next to it) == (v*S', S') [dalek]", input.clone(), pubs, format!("{} {}", ph(&d.0), ph(&d.1)));
+            let (name, tag) = [("Mainnet", 42u8), ("Testnet", 63), ("Stagenet", 36), ("None", 42)][(w + i as usize + j as usize) % 4];
+            let got = o.op(format!("c11_sub_addr {} {} {} {} {}", sh(&v), ph(&s_pub), i, j, name), true);
+            let want = hex(address_text(tag, &d.1, &d.0).as_bytes());
+            o.direct(got == want, "c11: get_subaddress at an index with a component u32::MAX (or next to it) [dalek keys]", format!("{} net={}", input, name), got, want);
+        }
+        // a checker whose ranges are the last values a `Range<u32>` can hold: (m-1, m-1) is inside, recognised with its index
+        let d = dest_at(&v, &s_pub, m - 1, m - 1);
+        let r = rand_scalar(rng);
+        let txk = r * d.1;
+        let key = derive_public_key(&derivation(&v, &txk), 3, &d.1);
+        o.stat("c11.index-u32-max.checker");
+        let got = o.op(format!("c10_subcheck {} {} {} {} {} {} {} 3 {}", sh(&v), ph(&s_pub), m - 1, m, m - 1, m, ph(&txk), ph(&key)), true);
+        o.direct(got == format!("{}/{}", m - 1, m - 1), "c11: a SubKeyChecker over the ranges (u32::MAX-1)..u32::MAX recognises the key of that subaddress", format!("v={} S={} R={} key={}", sh(&v), ph(&s_pub), ph(&txk), ph(&key)), got, format!("{}/{}", m - 1, m - 1));
     }
 }
 
